@@ -124,6 +124,62 @@ def case_reject(**p):
   return case
 
 
+def _accept_table():
+  """(label, thunk): valid configurations in every usual spelling of the `build` argument (TensorShape, plain tuple, list; for
+  RTL also dicts of those and of lists of them); each must build and evaluate to finite numbers on finite inputs"""
+  import tensorflow as tf
+  import tensorflow_lattice as tfl
+  L = tfl.layers
+  out = []
+
+  def run(layer, shape, x):
+    layer.build(shape)
+    o = layer(x)
+    os_ = list(o.values()) if isinstance(o, dict) else (list(o) if isinstance(o, (list, tuple)) else [o])
+    if not all(bool(np.all(np.isfinite(np.asarray(t)))) for t in os_):
+      raise ArithmeticError('non-finite output')
+  forms = [('TensorShape', lambda *d: tf.TensorShape([None] + list(d))), ('tuple', lambda *d: (None,) + tuple(d)),
+           ('list', lambda *d: [None] + list(d)), ('tuple-batch', lambda *d: (4,) + tuple(d))]
+  for fl, mk in forms:
+    if fl == 'list':
+      # for RTL a Python list is the spelling of *several groups*; a single shape is not written as a list there
+      continue
+    out.append(('rtl dense %s' % fl, lambda mk=mk: run(L.RTL(num_lattices=3, lattice_rank=2), mk(3), tf.fill([4, 3], 0.5))))
+    out.append(('rtl dict %s' % fl, lambda mk=mk: run(L.RTL(num_lattices=2, lattice_rank=3, separate_outputs=True),
+                                                      {'unconstrained': mk(2), 'increasing': mk(3)},
+                                                      {'unconstrained': tf.fill([4, 2], 0.25), 'increasing': tf.fill([4, 3], 0.75)})))
+    out.append(('rtl dict-of-groups %s' % fl, lambda mk=mk: run(L.RTL(num_lattices=3, lattice_rank=2, average_outputs=True),
+                                                                {'increasing': [mk(2), mk(1)], 'unconstrained': mk(2)},
+                                                                {'increasing': [tf.fill([4, 2], 0.5), tf.fill([4, 1], 0.5)],
+                                                                 'unconstrained': tf.fill([4, 2], 0.5)})))
+  for fl, mk in forms:
+    out.append(('lattice %s' % fl, lambda mk=mk: run(L.Lattice(lattice_sizes=[2, 3], monotonicities=[1, 0]), mk(2), tf.fill([4, 2], 0.5))))
+    out.append(('lattice units %s' % fl, lambda mk=mk: run(L.Lattice(lattice_sizes=[2, 2], units=3), mk(3, 2), tf.fill([4, 3, 2], 0.5))))
+    out.append(('pwl %s' % fl, lambda mk=mk: run(L.PWLCalibration(input_keypoints=[0.0, 1.0, 2.0], units=2, monotonicity=1), mk(1), tf.fill([4, 1], 0.5))))
+    out.append(('linear %s' % fl, lambda mk=mk: run(L.Linear(num_input_dims=3, monotonicities=[1, 0, -1]), mk(3), tf.fill([4, 3], 0.5))))
+    out.append(('categorical %s' % fl, lambda mk=mk: run(L.CategoricalCalibration(num_buckets=3, units=2), mk(1), tf.zeros([4, 1], dtype=tf.int32))))
+    out.append(('kfl %s' % fl, lambda mk=mk: run(L.KroneckerFactoredLattice(lattice_sizes=2, num_terms=2, monotonicities=[1, 0]), mk(2), tf.fill([4, 2], 0.5))))
+    out.append(('cdf %s' % fl, lambda mk=mk: run(L.CDF(num_keypoints=3, units=2), mk(2), tf.fill([4, 2], 0.5))))
+  return out
+
+
+def case_accept(**p):
+  """valid configurations, every usual spelling of the shape handed to build(): must build and evaluate finitely (executed)"""
+  case = Case(PROP, p['name'], {})
+  import tensorflow_lattice as tfl
+  from tensorflow_lattice.python import rtl_layer
+  case.encoded(rtl_layer.RTL.build, rtl_layer.RTL._get_rtl_structure, rtl_layer.RTL.call)
+  for label, thunk in _accept_table():
+    try:
+      thunk()
+      verdict, note = 'unsat', 'built and evaluated'
+    except Exception as e:  # pylint: disable=broad-except
+      verdict, note = 'sat', '%s: %s' % (type(e).__name__, str(e)[:100])
+    case.record('must-accept[%s]' % label, verdict, kind='structural', witness={}, replay=dict(fn='accept', label=label),
+                sig=dict(query='accept', label=label), note=note)
+  return case
+
+
 # ---------------------------------------------------------------- (2) accepted => total and finite
 def _try(thunk):
   try:
@@ -623,6 +679,15 @@ def replay(r):
         return dict(reproduced=False, detail='both spellings accepted')
   if rp['fn'] == 'syn-init':
     return _init_compare(rp['label'])
+  if rp['fn'] == 'accept':
+    for label, thunk in _accept_table():
+      if label == rp['label']:
+        try:
+          thunk()
+          return dict(reproduced=False, detail='built and evaluated')
+        except Exception as e:  # pylint: disable=broad-except
+          return dict(reproduced=True, detail='%s: %s' % (type(e).__name__, str(e)[:200]))
+    return dict(reproduced=False, detail='entry not found')
   if rp['fn'] == 'reject':
     for entry in _reject_table():
       label, thunk = entry[0], entry[1]
@@ -667,6 +732,7 @@ def replay(r):
 
 def cases(tier, seed):
   out = [dict(name='must-reject', fn='case_reject', params=dict(name='must-reject'), cap=900),
+         dict(name='must-accept', fn='case_accept', params=dict(name='must-accept'), cap=900),
          dict(name='synonyms', fn='case_synonyms', params=dict(name='synonyms'), cap=900),
          dict(name='synonym-inits', fn='case_synonym_inits', params=dict(name='synonym-inits'), cap=600),
          dict(name='canonicalize', fn='case_canon', params=dict(name='canonicalize'), cap=1200)]
